@@ -67,7 +67,7 @@ CHECKS = {
         technique="Lean 4 proof (exact core from 1-minimality + deletion invariant) + differential execution on (n, core) grids with the bound as monitor",
         ref="§4 C10"),
     "C14": dict(
-        text="Theorems C14_pow2 (is_power_of_two(k) iff k = 2^j, all integers), C14_process_args (start-up refuses exactly non-powers of two for the effective min/max; --chunk-size=n == min=max=n, repeat=never), C14_blocks (every minimize candidate = best minus one contiguous non-empty block; chunk size a power of two, <= min(max, lp2 n), non-increasing; block = chunk size unless it is the entire remainder), C14_deadline_minimize and C14_deadline_pairs (minimize, minimize-around and minimize-balanced make no proposal — hence start no test — once the clock has passed start+limit, for every test and clock). Resweep rule, min clause and the time limit of the experimental move: monitor on the real code (blocks are also checked on testcases with non-reducible parts between the atoms).",
+        text="Theorems C14_pow2 (is_power_of_two(k) iff k = 2^j, all integers), C14_process_args (start-up refuses exactly non-powers of two for the effective min/max; --chunk-size=n == min=max=n, repeat=never), C14_blocks (every minimize candidate = best minus one contiguous non-empty block; chunk size a power of two, <= min(max, lp2 n), non-increasing; block = chunk size unless it is the entire remainder), C14_min_clause (with power-of-two min <= max a candidate deletes fewer than min atoms only once at most min atoms remain), C14_resweep_decision + C14_removed_flag (the round-end decision sweeps the same size again only after a sweep that removed something, never under repeat=never, under repeat=last only at the smallest size; otherwise the size strictly decreases), C14_deadline_minimize and C14_deadline_pairs (minimize, minimize-around and minimize-balanced make no proposal — hence start no test — once the clock has passed start+limit, for every test and clock). The resweep rule over the whole proposal log and the time limit of the experimental move: monitor on the real code (blocks are also checked on testcases with non-reducible parts between the atoms).",
         note=NOTE + "min > max is a recorded finding; --repeat-first-round counts as 'the first sweep removed something' (documented option). time.time() is replaced by a scripted clock.",
         technique="Lean 4 proof (proposal-log invariant over the minimize loop; arithmetic on bit_length) + differential execution under option/verdict/clock grids",
         ref="§4 C14"),
@@ -92,8 +92,8 @@ CHECKS = {
         technique="Lean 4 proof (Log invariant incl. tried-set = contents tested) + differential execution of the real driver",
         ref="§4 C12"),
     "C06": dict(
-        text="Theorems C06_roundtrip_{line,char,symbol} (every byte string: a successful load writes back the same bytes, atoms non-empty, one flag per atom), C06_no_internal_error, C06_lines_flatten; C06_roundtrip_attrs, C06_roundtrip_jsstr_partial (bytes and flags; non-empty atoms of the JS splitter: monitor). Tied to testcases.py by differential execution of load() vs the model on every concatenation of <= 3/4 entries of a 24-entry adversarial alphabet x splitters plus random strings; monitor (dump-and-compare, also through a re-used object) on all five splitters.",
-        note=NOTE + "Non-emptiness of JS-string atoms is checked by the monitor only.",
+        text="Theorems C06_roundtrip_{line,char,symbol} (every byte string: a successful load writes back the same bytes, atoms non-empty, one flag per atom), C06_no_internal_error, C06_lines_flatten; C06_roundtrip_attrs, C06_roundtrip_jsstr (all five splitters: bytes, non-empty parts, one flag per part; for the JS splitter via the invariant that the tokenizer's index list stays strictly increasing and in range through back-tracking and gap merge). Tied to testcases.py by differential execution of load() vs the model on every concatenation of <= 3/4 entries of a 24-entry adversarial alphabet x splitters plus random strings; monitor (dump-and-compare, also through a re-used object) on all five splitters.",
+        note=NOTE + "load() through a re-used object is checked on the real code (a Python aliasing matter the pure model cannot express).",
         technique="Lean 4 proof (generic load round-trip lemma over any splitter meeting SplitOK, instantiated per splitter) + exhaustive short-string correspondence",
         ref="§4 C06"),
     "C08": dict(
